@@ -26,6 +26,19 @@ CLAIMED['C12'] = dict(category='other', technique='lemmas over a first-order tra
 CLAIMED['C17'] = dict(category='other', technique='contract-based deductive verification (pyvc + z3) of the type-token constructors and index membership; ground evaluation of predefined tokens; bounded stand-in for the schema walk',
     text='Proved: token constructors reject ill-formed declarations (max<min, length<-1, wrong-kind enumerated values), ArrayType.contains_index/is_fixed_length, twos-complement bounds of the predefined integer tokens. Bounded (not proved): type_check_references and the navigation helpers against an independent resolver on a schema x property grid. Two genuine defects repaired by fix: commits (F1, F2).',
     note='schema walk not under contract; A-REAL for numeric bounds', ref='DESIGN.md section 6, C17')
+_T = 'contract-based deductive verification (pyvc: symbolic execution of the attrs-generated constructors, validators, converters and cast() from source; z3/cvc5) + assumed contracts on 3 constructors + bounded native tier'
+CLAIMED['C03'] = dict(category='other', technique=_T,
+    text='The node-level invariant wt (non-empty type set within the kind, operands inside parameter types, declared result type, equal type sets on both sides of =/!=, bound variable used at the element type) is proved to hold for the results of 8 expression constructors and of cast() on all 11 classes, given well-typed children. HplSet/HplFunctionCall/HplQuantifier constructors and the predicate-level same-reference check are under assumed contracts evaluated natively; parser and rewriting outputs are checked by a bounded stand-in. Open finding F16.',
+    note='assumed constructor contracts; A-LARK-CALL; built-in operator/function tables read live', ref='DESIGN.md section 6, C03')
+CLAIMED['C04'] = dict(category='other', technique=_T,
+    text='Completeness side: the TypeError conditions proved for the constructors and cast() are exact (raised only for a disjoint operand/parameter pair), so children whose type sets contain their schema types are never rejected and narrowing (intersection) keeps the schema type inside. The schema-assignment argument and the parser link are bounded (type-directed generation, schema check).',
+    note='the sigma-invariant is argued from exact intersection semantics, not a separate obligation', ref='DESIGN.md section 6, C04')
+CLAIMED['C05'] = dict(category='other', technique=_T,
+    text='Soundness side: for the verified constructors and cast() a disjoint operand type set always raises TypeError (raises-iff obligations from the real source). Function calls, set elements, quantifier element types and the same-reference check: assumed contracts checked natively + single-clash injection through the parser. Open finding F16.',
+    note='assumed constructor contracts; parser link bounded', ref='DESIGN.md section 6, C05')
+CLAIMED['C16'] = dict(category='other', technique='ground obligations over the source (write inventory, frozen classes) + ' + _T,
+    text='Every run: all AST classes frozen, metadata init=False/eq=False, heap writes in the source are exactly W1/W2/W3 and the forced in-place narrowing is requested only by operand validators (fails closed). Proved: cast() never writes to its receiver (self or copy) for all 11 classes; the verified constructors narrow exactly what their contracts declare (callers get frame obligations). Bounded: deep snapshots (structure, types, metadata, hash) around API calls and sequences; but() identity/copy clauses. One defect repaired (F14).',
+    note='frame obligations of the rewriting functions are not yet under contract; metadata contents outside the value model', ref='DESIGN.md section 6, C16')
 NOT_YET = {}
 
 
